@@ -48,7 +48,7 @@ MANIFEST = {
         "design_ref": "DESIGN.md 3/C18",
     }
 }
-PROPS = ["Nstd.Codec.Props", "Nstd.Codec.PropsNum", "Nstd.Codec.PropsUtf8"]
+PROPS = ["Nstd.Codec.Props", "Nstd.Codec.PropsNum", "Nstd.Codec.PropsUtf8", "Nstd.Codec.PropsBody"]
 DRIVER = "drv_codec"
 LEAN_TARGETS = PROPS + [DRIVER]
 SOURCES = ["codec.cpp", C.REPO / "src/String.cpp", C.REPO / "src/Memory.cpp"]
